@@ -72,6 +72,9 @@ func NewExchangeJSightSchema[T bytes.ByteKeeper](
 	return es, nil
 }
 
+// exampleMu serialises the example generation of all JSight schemas.
+var exampleMu sync.Mutex
+
 func (e *ExchangeJSightSchema) Notation() notation.SchemaNotation {
 	return notation.SchemaNotationJSight
 }
@@ -123,9 +126,14 @@ func (e *ExchangeJSightSchema) processAllOf(uut *StringSet) error {
 // behind regex user types is stateful and would give another value on every call.
 func (e *ExchangeJSightSchema) Example() ([]byte, error) {
 	e.onceExample.Do(func() {
+		// The generator returns a slice of a buffer which it has already given back to
+		// a pool shared by all schemas: the bytes have to be copied before anybody else
+		// (another goroutine included) generates an example.
+		exampleMu.Lock()
+		defer exampleMu.Unlock()
+
 		var b []byte
 		b, e.exampleErr = e.JSchema.Example()
-		// The generator returns a slice of a reusable buffer: keep a copy.
 		e.example = append([]byte(nil), b...)
 	})
 	return e.example, e.exampleErr
